@@ -60,7 +60,6 @@ PROBES = [
     "addap_from_document_form",
     "root_replaced",
     "reuse_depth_ge_5",
-    "mut_hit_aliased_node",
     "apply_failed_then_reapplied",
 ]
 FORMS = ["dicts", "text", "file", "builder_str", "builder_ptr", "asdicts", "stringio"]
